@@ -174,7 +174,13 @@ func runC01(t *testing.T, r *kit.Run) {
 		prefix = "C01/plain-node-group"
 		r.Out.Probe("file-with-plain-node-group")
 	}
-	res := runScan(t, scanCfg{data: f.Data, procs: procs, cut: -1, errAt: -1, sched: r.Sched, tape: r.Tape, header: true, maxObj: len(f.Objects()) + 20, trace: r.Replay})
+	c01cfg := scanCfg{data: f.Data, procs: procs, cut: -1, errAt: -1, sched: r.Sched, tape: r.Tape, header: true, maxObj: len(f.Objects()) + 20, trace: r.Replay}
+	if r.Tape.Chance(1, 3) && !hasBig(f) {
+		// accept-all filter callbacks that are delay points: a decoder can then be overtaken in the middle of a block
+		yieldingFilters(&c01cfg)
+		r.Out.Probe("decoders-interleaved-mid-block")
+	}
+	res := runScan(t, c01cfg)
 	nonDef := false
 	for _, b := range f.Blocks {
 		nonDef = nonDef || b.NonDef
@@ -438,6 +444,7 @@ func runC08(t *testing.T, r *kit.Run) {
 		cfg.sched = r.Sched
 		cfg.sched.Seed = kit.Mix(r.Sched.Seed + uint64(k))
 		cfg.skip = [3]bool{mask&1 != 0, mask&2 != 0, mask&4 != 0}
+		cfg.header = r.Tape.Bool() // Header() before the first Scan also starts the decoders
 		// predicates inspect but never retain their argument; the decision is a function of the element only
 		decide := func(p pred, o osm.Object) bool {
 			s := snapshot(o)
